@@ -64,6 +64,8 @@ case('s_cache_if_int_ok', 'C19-T1', SYNC_HDR + PRED + '#[cache(cache_if = keep)]
 _pair('a_scope_rejected', 'C19-T1', _async, 'scope = "thread"', 'limit = 3', 'Unknown attribute')
 _pair('a_unknown_attr', 'C19-T1', _async, 'bar = "x"', 'name = "x"', 'Unknown attribute')
 _pair('a_policy_unknown', 'C19-T1', _async, 'policy = "mru"', 'policy = "arc"', 'Invalid policy')
+_pair('a_policy_uppercase', 'C19-T1', _async, 'policy = "FIFO"', 'policy = "fifo"', 'Invalid policy')
+_pair('s_policy_uppercase', 'C19-T1', _sync, 'policy = "Lru"', 'policy = "lru"', 'Invalid policy')
 _pair('a_limit_string', 'C19-T1', _async, 'limit = "x"', 'limit = 2', 'Invalid literal for `limit`')
 _pair('a_ttl_negative', 'C19-T1', _async, 'ttl = -1', 'ttl = 1', 'ttl must be a positive integer')
 _pair('a_mem_unit', 'C19-T1', _async, 'max_memory = "10TB"', 'max_memory = "10GB"', 'Invalid format for max_memory')
